@@ -10,6 +10,7 @@ values over the interval the range guard admits.
 from __future__ import annotations
 
 import ast
+import re
 import math
 
 from ..index import Index
@@ -306,24 +307,36 @@ def check(run):
     run.rule("R8", "group(): sorted neighbours are compared through a difference only for floats; integers (whose difference can wrap) and other types use exact inequality")
     fg = ix.func("trimesh.grouping:group")
     pg = Prov(ix, fg)
-    defs = [st for st in ast.walk(fg.node) if isinstance(st, ast.Assign) and isinstance(st.targets[0], ast.Name) and st.targets[0].id == "nondupe"]
+    # the boundary mask is whatever reaches numpy.nonzero(...) in the computation of the run starts (its name is irrelevant)
+    nz = [c for c in ast.walk(fg.node) if isinstance(c, ast.Call) and pg.callee(c.func) in ("numpy.nonzero", "numpy.flatnonzero", "numpy.where") and len(c.args) == 1]
+    defs = []
+    for c in nz:
+        a0 = c.args[0]
+        if isinstance(a0, ast.Name):
+            defs += [(st, st.value) for st in ast.walk(fg.node) if isinstance(st, ast.Assign) and len(st.targets) == 1
+                     and isinstance(st.targets[0], ast.Name) and st.targets[0].id == a0.id]
+        else:
+            defs.append((pg.stmt_of(c), a0))
     if not defs:
-        raise AnalysisError("anchor vanished: `nondupe` in grouping.group")
-    for st in defs:
-        txt = pg.canon(st.value, st, stop=("values",))
-        g = pg.guards(st, stop=("values",))
+        raise AnalysisError("anchor vanished: the neighbour-comparison mask handed to numpy.nonzero in grouping.group")
+    SORTED = r"(?P<S>(?P<X>.+)\[(?P=X)\.argsort\((?:kind='\w+')?\)\]|numpy\.sort\((?P<X2>.+)\))"
+    for st, val in defs:
+        txt = pg.canon(val, st)
+        g = pg.guards(st)
         arithmetic = "numpy.diff(" in txt or " - " in txt
         if arithmetic:
-            float_only = any(x in ("L_values.dtype.kind == 'f'", "'f' == L_values.dtype.kind") for x in g)
+            float_only = any(re.fullmatch(r"(.+)\.dtype\.kind == 'f'|'f' == (.+)\.dtype\.kind|numpy\.issubdtype\((.+)\.dtype, numpy\.floating\)", x) for x in g)
             ok = float_only
         else:
-            ok = txt in ("L_values[1:] != L_values[:-1]", "L_values[:-1] != L_values[1:]", "numpy.not_equal(L_values[1:], L_values[:-1])")
-        run.instance("R8", fg.where, f"nondupe := `{txt[:70]}` under {g}", ok)
+            ok = any(re.fullmatch(f, txt) for f in (SORTED + r"\[1:\] != (?P=S)\[:-1\]", SORTED + r"\[:-1\] != (?P=S)\[1:\]",
+                                                     r"numpy\.not_equal\(" + SORTED + r"\[1:\], (?P=S)\[:-1\]\)"))
+        run.instance("R8", fg.where, f"neighbour mask := `{txt[:70]}` under {g}", ok)
         if not ok:
-            run.violation("R8", fg.where, f"group() decides `nondupe` by `{txt[:80]}` under {g or ['no condition']}: "
+            run.violation("R8", fg.where, f"group() decides its neighbour mask by `{txt[:80]}` under {g or ['no condition']}: "
                                           + ("a difference of integer neighbours wraps when they are 2**63 or more apart, merging distinct values into one group"
                                              if arithmetic else "not an exact inequality of sorted neighbours"),
                           key=key_of("C06-R8", "nondupe", "arith" if arithmetic else "form"))
+    run.floor("neighbour-mask definitions in group()", len(defs), 2)
     run.assume("element values are bounded only by the range guard read from the source; row count is irrelevant to the packing")
     run.assume("np.bitwise_xor/or/add of fields occupying disjoint bit ranges is injective (arithmetic fact)")
     return {
